@@ -20,6 +20,7 @@ import Anko.Props.Tie.CallFlow
 import Anko.Props.Tie.ExprFlow
 import Anko.Props.Tie.BindFlow
 import Anko.Props.Tie.RunFlow
+import Anko.Props.Tie.Inventory
 
 namespace Anko.C14
 open Anko
@@ -83,5 +84,20 @@ theorem source_tie_ExprFlow : Gen.ExprFlow.leaves = Tables.exprFlow := Tie.exprF
 theorem source_tie_BindFlow : Gen.BindFlow.leaves = Tables.bindFlow := Tie.bindFlow
 /-- the entry points, recoverFunc, newError, type and value construction -/
 theorem source_tie_RunFlow : Gen.RunFlow.leaves = Tables.runFlow := Tie.runFlow
+
+
+/-! ### Declaration inventory
+
+Nothing was added to the packages this property is anchored in: their top-level declarations (functions, methods, variables, constants, types with
+the fields of struct types), regenerated from /repo on this run, are the audited ones (Props/Tie/Inventory). A helper, a package-level table or a
+file added there - code no flow table can pin - breaks the tie by name and makes this property's check search for a failing input. -/
+/-- vm/ -/
+theorem declarations_of_Vm_are_the_audited_ones : Tie.ofPkg "vm" Gen.Inventory.decls = Tie.ofPkg "vm" Tables.inventory := Tie.inventoryVm
+/-- env/ -/
+theorem declarations_of_Env_are_the_audited_ones : Tie.ofPkg "env" Gen.Inventory.decls = Tie.ofPkg "env" Tables.inventory := Tie.inventoryEnv
+/-- ast/ -/
+theorem declarations_of_Ast_are_the_audited_ones : Tie.ofPkg "ast" Gen.Inventory.decls = Tie.ofPkg "ast" Tables.inventory := Tie.inventoryAst
+/-- packages/ (which files exist, what they declare besides init) -/
+theorem declarations_of_Packages_are_the_audited_ones : Tie.ofPkg "packages" Gen.Inventory.decls = Tie.ofPkg "packages" Tables.inventory := Tie.inventoryPackages
 
 end Anko.C14
